@@ -30,16 +30,16 @@ Print Assumptions C01_pmtiles_tile_id.
 (* pmtiles: a directory written by serialize_entries is read back unchanged by from_blob *)
 Theorem C01_pmtiles_directory :
   forall es, Forall entry_ok es -> nondec 0 es -> (N.of_nat (length es) <= 10000000000)%N ->
-    deserialize (serialize es) = Ok es.
-Proof. intros es. exact (deserialize_serialize [] es). Qed.
+    deserialize pm_arith_variant (serialize es) = Ok es.
+Proof. intros es. exact (deserialize_serialize pm_arith_variant [] es). Qed.
 Print Assumptions C01_pmtiles_directory.
 
 (* pmtiles: in the sorted directory the writer produces (run length 1 everywhere) the binary search
    finds every entry by its id *)
 Theorem C01_pmtiles_find :
-  forall es e, runs_ok es -> In e es -> e_run e = 1%N -> find_tile es (e_id e) = Ok (Some e).
+  forall es e, runs_ok es -> In e es -> e_run e = 1%N -> find_tile pm_arith_variant es (e_id e) = Ok (Some e).
 Proof.
-  intros es e Hr Hin Hrun. apply (find_in_run es e (e_id e) Hr Hin); [left; rewrite Hrun; lia|intros _; rewrite Hrun; lia].
+  intros es e Hr Hin Hrun. apply (find_in_run pm_arith_variant es e (e_id e) Hr Hin); [left; rewrite Hrun; lia|intros _; rewrite Hrun; lia].
 Qed.
 Print Assumptions C01_pmtiles_find.
 
@@ -54,5 +54,5 @@ Example C01_example_ids : coord_to_tile_id 5 3 3 = Some 73%Z /\ tile_id_to_coord
 Proof. split; vm_compute; reflexivity. Qed.
 Example C01_example_dir :
   let es := [mkE 3 0 10 1; mkE 4 10 7 1; mkE 9 100 5 1]%N in
-  runs_ok es /\ Forall entry_ok es /\ nondec 0 es /\ deserialize (serialize es) = Ok es.
+  runs_ok es /\ Forall entry_ok es /\ nondec 0 es /\ deserialize pm_arith_variant (serialize es) = Ok es.
 Proof. cbn. repeat split; try lia; repeat constructor; unfold entry_ok, two64; cbn; try lia. Qed.
